@@ -171,6 +171,7 @@ type SMT struct {
 	axiomDone map[string]bool
 	nfresh   int
 	strConsts map[string]Term
+	recDefs []string
 }
 
 func newSMT() *SMT {
